@@ -1,6 +1,7 @@
 package main
 
 import (
+	"go/constant"
 	"fmt"
 	"go/token"
 	"go/types"
@@ -1482,6 +1483,19 @@ func (e *Engine) scanFanout() []string {
 				names = append(names, e.fnKey(cl))
 			}
 		}
+		// the spawning function itself, between a go statement and the Wait that joins it
+		for _, pa := range e.parentWindowAccesses(fn) {
+			for i := range perClosure {
+				for _, a := range perClosure[i] {
+					if a.what == pa.what && (a.write || pa.write) {
+						bad = append(bad, fmt.Sprintf("%s accesses %s at %s between spawning %s and the Wait that joins it, which %s (%s)", e.fnKey(fn), pa.what, pa.pos, names[i], map[bool]string{true: "writes it", false: "reads it"}[a.write], a.pos))
+					}
+				}
+			}
+			if pa.what == "indexed" {
+				bad = append(bad, fmt.Sprintf("%s accesses an indexed element at %s between spawning goroutines that write indexed elements and the Wait that joins them (index is not the spawning loop's counter)", e.fnKey(fn), pa.pos))
+			}
+		}
 		for i := range perClosure {
 			for j := range perClosure {
 				if i == j {
@@ -1502,6 +1516,223 @@ func (e *Engine) scanFanout() []string {
 	}
 	sort.Strings(bad)
 	return dedupe(bad)
+}
+
+type winAccess struct {
+	write bool
+	what  string
+	pos   string
+}
+
+// parentWindowAccesses lists the loads and stores the spawning function fn performs at program points that are
+// reachable from one of its go statements without passing a (*sync.WaitGroup).Wait call, classified like the
+// accesses of the goroutine bodies: "cell:<captured variable>", "field:<captured variable>.<field>", or "indexed"
+// for an element of a captured slice that a goroutine writes by index (unless the index is the counter of the loop
+// that spawns the goroutines: iteration j only touches element j, goroutine k<j only element k).
+func (e *Engine) parentWindowAccesses(fn *ssa.Function) []winAccess {
+	bound := map[*ssa.Alloc]string{} // captured cells -> free variable name
+	indexedWritten := map[string]bool{}
+	var gos []*ssa.Go
+	for _, b := range fn.Blocks {
+		for _, in := range b.Instrs {
+			g, ok := in.(*ssa.Go)
+			if !ok {
+				continue
+			}
+			mc, ok := g.Call.Value.(*ssa.MakeClosure)
+			if !ok {
+				continue
+			}
+			gos = append(gos, g)
+			cl := mc.Fn.(*ssa.Function)
+			for i, fv := range cl.FreeVars {
+				if i < len(mc.Bindings) {
+					if al, ok := mc.Bindings[i].(*ssa.Alloc); ok {
+						bound[al] = fv.Name()
+					}
+				}
+			}
+			for _, cb := range cl.Blocks {
+				for _, ci := range cb.Instrs {
+					st, ok := ci.(*ssa.Store)
+					if !ok {
+						continue
+					}
+					var ia *ssa.IndexAddr
+					switch a := st.Addr.(type) {
+					case *ssa.IndexAddr:
+						ia = a
+					case *ssa.FieldAddr:
+						ia, _ = a.X.(*ssa.IndexAddr)
+					}
+					if ia == nil {
+						continue
+					}
+					if u, ok := ia.X.(*ssa.UnOp); ok {
+						if fv, ok := u.X.(*ssa.FreeVar); ok {
+							indexedWritten[fv.Name()] = true
+						}
+					}
+				}
+			}
+		}
+	}
+	if len(gos) == 0 {
+		return nil
+	}
+	isWait := func(in ssa.Instruction) bool {
+		c, ok := in.(*ssa.Call)
+		if !ok {
+			return false
+		}
+		callee := c.Call.StaticCallee()
+		return callee != nil && callee.String() == "(*sync.WaitGroup).Wait"
+	}
+	// forward reachability from each go statement, cut at Wait
+	type pt struct {
+		b *ssa.BasicBlock
+		i int
+	}
+	inWin := map[ssa.Instruction]bool{}
+	seenBlock := map[*ssa.BasicBlock]bool{}
+	var walk func(p pt)
+	walk = func(p pt) {
+		for k := p.i; k < len(p.b.Instrs); k++ {
+			in := p.b.Instrs[k]
+			if isWait(in) {
+				return
+			}
+			inWin[in] = true
+		}
+		for _, sb := range p.b.Succs {
+			if !seenBlock[sb] {
+				seenBlock[sb] = true
+				walk(pt{sb, 0})
+			}
+		}
+	}
+	for _, g := range gos {
+		b := g.Block()
+		for k, in := range b.Instrs {
+			if in == g {
+				walk(pt{b, k + 1})
+			}
+		}
+	}
+	nameOf := func(v ssa.Value) (string, bool) {
+		if u, ok := v.(*ssa.UnOp); ok {
+			if al, ok := u.X.(*ssa.Alloc); ok {
+				if n, ok := bound[al]; ok {
+					return n, true
+				}
+			}
+		}
+		return "", false
+	}
+	loopCounter := func(idx ssa.Value) bool {
+		// the strictly increasing counter of a loop that contains a go statement: a header phi whose back-edge
+		// value is itself plus a positive constant (or that incremented value), possibly converted
+		if c, ok := idx.(*ssa.Convert); ok {
+			idx = c.X
+		}
+		incrOf := func(v ssa.Value) (*ssa.Phi, bool) {
+			b, ok := v.(*ssa.BinOp)
+			if !ok || b.Op != token.ADD {
+				return nil, false
+			}
+			ph, ok := b.X.(*ssa.Phi)
+			k, ok2 := b.Y.(*ssa.Const)
+			if !ok || !ok2 || k.Value == nil || constant.Sign(k.Value) <= 0 {
+				return nil, false
+			}
+			return ph, true
+		}
+		ph, ok := idx.(*ssa.Phi)
+		if !ok {
+			if ph, ok = incrOf(idx); !ok {
+				return false
+			}
+		}
+		stepOK := false
+		for _, ed := range ph.Edges {
+			if p2, ok := incrOf(ed); ok && p2 == ph {
+				stepOK = true
+			}
+		}
+		if !stepOK || len(ph.Edges) != 2 {
+			return false
+		}
+		for h, body := range e.loops(fn) {
+			if ph.Block() != h {
+				continue
+			}
+			for _, g := range gos {
+				if body[g.Block()] {
+					return true
+				}
+			}
+		}
+		return false
+	}
+	var out []winAccess
+	classify := func(addr ssa.Value, write bool, in ssa.Instruction) {
+		switch a := addr.(type) {
+		case *ssa.Alloc:
+			if n, ok := bound[a]; ok {
+				// a cell allocated in this very block and not yet captured is fresh in every iteration
+				if a.Block() == in.Block() {
+					posIn, posCap := -1, -1
+					for k, bi := range a.Block().Instrs {
+						if bi == in {
+							posIn = k
+						}
+						if mc, ok := bi.(*ssa.MakeClosure); ok && posCap < 0 {
+							for _, bv := range mc.Bindings {
+								if bv == ssa.Value(a) {
+									posCap = k
+								}
+							}
+						}
+					}
+					if posIn >= 0 && posCap >= 0 && posIn < posCap {
+						return
+					}
+				}
+				out = append(out, winAccess{write, "cell:" + n, e.posOf(in)})
+			}
+		case *ssa.FieldAddr:
+			if ia, ok := a.X.(*ssa.IndexAddr); ok {
+				if n, ok := nameOf(ia.X); ok && indexedWritten[n] && !loopCounter(ia.Index) {
+					out = append(out, winAccess{write, "indexed", e.posOf(in)})
+				}
+				return
+			}
+			if n, ok := nameOf(a.X); ok {
+				st := derefType(a.X.Type()).Underlying().(*types.Struct)
+				out = append(out, winAccess{write, "field:" + n + "." + st.Field(a.Field).Name(), e.posOf(in)})
+			}
+		case *ssa.IndexAddr:
+			if n, ok := nameOf(a.X); ok && indexedWritten[n] && !loopCounter(a.Index) {
+				out = append(out, winAccess{write, "indexed", e.posOf(in)})
+			}
+		}
+	}
+	for _, b := range fn.Blocks {
+		for _, in := range b.Instrs {
+			if !inWin[in] {
+				continue
+			}
+			switch x := in.(type) {
+			case *ssa.Store:
+				classify(x.Addr, true, in)
+			case *ssa.UnOp:
+				if x.Op == token.MUL {
+					classify(x.X, false, in)
+				}
+			}
+		}
+	}
+	return out
 }
 
 // writersOf: the packages whose code contains an instruction that can modify heap arrays of the given key
